@@ -18,16 +18,14 @@
       BUint: add, sub, neg, add_signed, carrying_add, borrowing_sub (z includes the carry / borrow)
       BInt : add, sub, neg, abs, add_unsigned, sub_unsigned, carrying_add, borrowing_sub; unsigned_abs
   * checked_*      : `none ↔ ¬rep z`, and `some r → value r = z`
-  * strict_*       : the model has no separate `strict_*` definitions; the Rust bodies are literally
-      `option_expect!(self.checked_x(..))`, so the theorems are stated on `Outcome.expect (checked_x ..)`:
-      `panic ↔ ¬rep z`, `ok r → value r = z`
+  * strict_*       : `panic ↔ ¬rep z`, `ok r → value r = z`
   * wrapping_*     : value = wrap z
   * saturating_*   : value = `Spec.clamp signed (M w n) z` (clamp of the exact result into
       [0, M-1] resp. [-M/2, M/2-1]); for the signed forms the side (MIN/MAX) is picked by the code from
       the sign of `self` (or is fixed), and the equality with the clamp shows it is the side where `z` lies;
       `i_saturating_add_side` / `i_saturating_sub_side` state that explicitly.
-  * `u_checked_neg_rust`: the Rust `BUint::checked_neg` is written `if self.is_zero() {Some(self)} else
-      {None}` whereas the model projects `overflowing_neg`; the two agree.
+  * `u_checked_neg_proj`: `BUint::checked_neg` is written `if self.is_zero() {Some(self)} else {None}`
+      (and modelled so); it equals the projection of `overflowing_neg`.
 
   NOT yet covered (need the shift / compare models owned by other modules): `midpoint`, `abs_diff`.
 
@@ -121,7 +119,7 @@ theorem u_checked_neg {w n : Nat} {a : List Nat} (hw : 1 ≤ w) (hn : 1 ≤ n)
     (ha : WF w n a) :
     (UI.checkedNeg w a = none ↔ ¬ repU (M w n) (-(U w a : Int))) ∧
     (∀ r, UI.checkedNeg w a = some r → WF w n r ∧ (U w r : Int) = -(U w a : Int)) :=
-  (UI.overflowingNeg_spec hw hn ha).checked
+  UI.checkedNeg_spec hw hn ha
 example : 1 ≤ 8 ∧ 1 ≤ 3 ∧ WF 8 3 [100, 250, 3] ∧
     UI.checkedNeg 8 [100, 250, 3] = none := by decide
 
@@ -136,37 +134,37 @@ example : 1 ≤ 8 ∧ 1 ≤ 3 ∧ WF 8 3 [100, 250, 3] ∧ WF 8 3 [200, 7, 255] 
 
 /-- `BUint::strict_add` -/
 theorem u_strict_add {w n : Nat} {a b : List Nat} (ha : WF w n a) (hb : WF w n b) :
-    (Outcome.expect (UI.checkedAdd w a b) = Outcome.panic ↔ ¬ repU (M w n) ((U w a : Int) + (U w b : Int))) ∧
-    (∀ r, Outcome.expect (UI.checkedAdd w a b) = Outcome.ok r → WF w n r ∧ (U w r : Int) = (U w a : Int) + (U w b : Int)) :=
+    (UI.strictAdd w a b = Outcome.panic ↔ ¬ repU (M w n) ((U w a : Int) + (U w b : Int))) ∧
+    (∀ r, UI.strictAdd w a b = Outcome.ok r → WF w n r ∧ (U w r : Int) = (U w a : Int) + (U w b : Int)) :=
   (UI.overflowingAdd_spec ha hb).strict
 example : WF 8 3 [100, 250, 3] ∧ WF 8 3 [100, 250, 3] ∧
-    Outcome.expect (UI.checkedAdd 8 [100, 250, 3] [100, 250, 3]) = Outcome.ok [200, 244, 7] := by decide
+    UI.strictAdd 8 [100, 250, 3] [100, 250, 3] = Outcome.ok [200, 244, 7] := by decide
 
 /-- `BUint::strict_sub` -/
 theorem u_strict_sub {w n : Nat} {a b : List Nat} (ha : WF w n a) (hb : WF w n b) :
-    (Outcome.expect (UI.checkedSub w a b) = Outcome.panic ↔ ¬ repU (M w n) ((U w a : Int) - (U w b : Int))) ∧
-    (∀ r, Outcome.expect (UI.checkedSub w a b) = Outcome.ok r → WF w n r ∧ (U w r : Int) = (U w a : Int) - (U w b : Int)) :=
+    (UI.strictSub w a b = Outcome.panic ↔ ¬ repU (M w n) ((U w a : Int) - (U w b : Int))) ∧
+    (∀ r, UI.strictSub w a b = Outcome.ok r → WF w n r ∧ (U w r : Int) = (U w a : Int) - (U w b : Int)) :=
   (UI.overflowingSub_spec ha hb).strict
 example : WF 8 3 [100, 250, 3] ∧ WF 8 3 [200, 7, 255] ∧
-    Outcome.expect (UI.checkedSub 8 [100, 250, 3] [200, 7, 255]) = Outcome.panic := by decide
+    UI.strictSub 8 [100, 250, 3] [200, 7, 255] = Outcome.panic := by decide
 
 /-- `BUint::strict_neg` -/
 theorem u_strict_neg {w n : Nat} {a : List Nat} (hw : 1 ≤ w) (hn : 1 ≤ n)
     (ha : WF w n a) :
-    (Outcome.expect (UI.checkedNeg w a) = Outcome.panic ↔ ¬ repU (M w n) (-(U w a : Int))) ∧
-    (∀ r, Outcome.expect (UI.checkedNeg w a) = Outcome.ok r → WF w n r ∧ (U w r : Int) = -(U w a : Int)) :=
-  (UI.overflowingNeg_spec hw hn ha).strict
+    (UI.strictNeg w a = Outcome.panic ↔ ¬ repU (M w n) (-(U w a : Int))) ∧
+    (∀ r, UI.strictNeg w a = Outcome.ok r → WF w n r ∧ (U w r : Int) = -(U w a : Int)) :=
+  UI.strictNeg_spec hw hn ha
 example : 1 ≤ 8 ∧ 1 ≤ 3 ∧ WF 8 3 [100, 250, 3] ∧
-    Outcome.expect (UI.checkedNeg 8 [100, 250, 3]) = Outcome.panic := by decide
+    UI.strictNeg 8 [100, 250, 3] = Outcome.panic := by decide
 
 /-- `BUint::strict_add_signed` -/
 theorem u_strict_add_signed {w n : Nat} {a b : List Nat} (hw : 1 ≤ w) (hn : 1 ≤ n)
     (ha : WF w n a) (hb : WF w n b) :
-    (Outcome.expect (UI.checkedAddSigned w a b) = Outcome.panic ↔ ¬ repU (M w n) ((U w a : Int) + S w b)) ∧
-    (∀ r, Outcome.expect (UI.checkedAddSigned w a b) = Outcome.ok r → WF w n r ∧ (U w r : Int) = (U w a : Int) + S w b) :=
+    (UI.strictAddSigned w a b = Outcome.panic ↔ ¬ repU (M w n) ((U w a : Int) + S w b)) ∧
+    (∀ r, UI.strictAddSigned w a b = Outcome.ok r → WF w n r ∧ (U w r : Int) = (U w a : Int) + S w b) :=
   (UI.overflowingAddSigned_spec hw hn ha hb).strict
 example : 1 ≤ 8 ∧ 1 ≤ 3 ∧ WF 8 3 [100, 250, 3] ∧ WF 8 3 [200, 7, 255] ∧
-    Outcome.expect (UI.checkedAddSigned 8 [100, 250, 3] [200, 7, 255]) = Outcome.ok [44, 2, 3] := by decide
+    UI.strictAddSigned 8 [100, 250, 3] [200, 7, 255] = Outcome.ok [44, 2, 3] := by decide
 
 /-- `BUint::wrapping_add` -/
 theorem u_wrapping_add {w n : Nat} {a b : List Nat} (ha : WF w n a) (hb : WF w n b) :
@@ -370,56 +368,56 @@ example : 2 ≤ 8 ∧ 1 ≤ 3 ∧ WF 8 3 [255, 255, 127] ∧ WF 8 3 [200, 7, 255
 /-- `BInt::strict_add` -/
 theorem i_strict_add {w n : Nat} {a b : List Nat} (hw : 2 ≤ w) (hn : 1 ≤ n)
     (ha : WF w n a) (hb : WF w n b) :
-    (Outcome.expect (II.checkedAdd w a b) = Outcome.panic ↔ ¬ repS (M w n) (S w a + S w b)) ∧
-    (∀ r, Outcome.expect (II.checkedAdd w a b) = Outcome.ok r → WF w n r ∧ S w r = S w a + S w b) :=
+    (II.strictAdd w a b = Outcome.panic ↔ ¬ repS (M w n) (S w a + S w b)) ∧
+    (∀ r, II.strictAdd w a b = Outcome.ok r → WF w n r ∧ S w r = S w a + S w b) :=
   (II.overflowingAdd_spec hw hn ha hb).strict
 example : 2 ≤ 8 ∧ 1 ≤ 3 ∧ WF 8 3 [255, 255, 127] ∧ WF 8 3 [5, 0, 0] ∧
-    Outcome.expect (II.checkedAdd 8 [255, 255, 127] [5, 0, 0]) = Outcome.panic := by decide
+    II.strictAdd 8 [255, 255, 127] [5, 0, 0] = Outcome.panic := by decide
 
 /-- `BInt::strict_sub` -/
 theorem i_strict_sub {w n : Nat} {a b : List Nat} (hw : 2 ≤ w) (hn : 1 ≤ n)
     (ha : WF w n a) (hb : WF w n b) :
-    (Outcome.expect (II.checkedSub w a b) = Outcome.panic ↔ ¬ repS (M w n) (S w a - S w b)) ∧
-    (∀ r, Outcome.expect (II.checkedSub w a b) = Outcome.ok r → WF w n r ∧ S w r = S w a - S w b) :=
+    (II.strictSub w a b = Outcome.panic ↔ ¬ repS (M w n) (S w a - S w b)) ∧
+    (∀ r, II.strictSub w a b = Outcome.ok r → WF w n r ∧ S w r = S w a - S w b) :=
   (II.overflowingSub_spec hw hn ha hb).strict
 example : 2 ≤ 8 ∧ 1 ≤ 3 ∧ WF 8 3 [200, 7, 255] ∧ WF 8 3 [5, 0, 0] ∧
-    Outcome.expect (II.checkedSub 8 [200, 7, 255] [5, 0, 0]) = Outcome.ok [195, 7, 255] := by decide
+    II.strictSub 8 [200, 7, 255] [5, 0, 0] = Outcome.ok [195, 7, 255] := by decide
 
 /-- `BInt::strict_neg` -/
 theorem i_strict_neg {w n : Nat} {a : List Nat} (hw : 2 ≤ w) (hn : 1 ≤ n)
     (ha : WF w n a) :
-    (Outcome.expect (II.checkedNeg w a) = Outcome.panic ↔ ¬ repS (M w n) (-S w a)) ∧
-    (∀ r, Outcome.expect (II.checkedNeg w a) = Outcome.ok r → WF w n r ∧ S w r = -S w a) :=
+    (II.strictNeg w a = Outcome.panic ↔ ¬ repS (M w n) (-S w a)) ∧
+    (∀ r, II.strictNeg w a = Outcome.ok r → WF w n r ∧ S w r = -S w a) :=
   (II.overflowingNeg_spec hw hn ha).strict
 example : 2 ≤ 8 ∧ 1 ≤ 3 ∧ WF 8 3 [0, 0, 128] ∧
-    Outcome.expect (II.checkedNeg 8 [0, 0, 128]) = Outcome.panic := by decide
+    II.strictNeg 8 [0, 0, 128] = Outcome.panic := by decide
 
 /-- `BInt::strict_abs` -/
 theorem i_strict_abs {w n : Nat} {a : List Nat} (hw : 2 ≤ w) (hn : 1 ≤ n)
     (ha : WF w n a) :
-    (Outcome.expect (II.checkedAbs w a) = Outcome.panic ↔ ¬ repS (M w n) (((S w a).natAbs : Int))) ∧
-    (∀ r, Outcome.expect (II.checkedAbs w a) = Outcome.ok r → WF w n r ∧ S w r = ((S w a).natAbs : Int)) :=
+    (II.strictAbs w a = Outcome.panic ↔ ¬ repS (M w n) (((S w a).natAbs : Int))) ∧
+    (∀ r, II.strictAbs w a = Outcome.ok r → WF w n r ∧ S w r = ((S w a).natAbs : Int)) :=
   (II.overflowingAbs_spec hw hn ha).strict
 example : 2 ≤ 8 ∧ 1 ≤ 3 ∧ WF 8 3 [200, 7, 255] ∧
-    Outcome.expect (II.checkedAbs 8 [200, 7, 255]) = Outcome.ok [56, 248, 0] := by decide
+    II.strictAbs 8 [200, 7, 255] = Outcome.ok [56, 248, 0] := by decide
 
 /-- `BInt::strict_add_unsigned` -/
 theorem i_strict_add_unsigned {w n : Nat} {a b : List Nat} (hw : 2 ≤ w) (hn : 1 ≤ n)
     (ha : WF w n a) (hb : WF w n b) :
-    (Outcome.expect (II.checkedAddUnsigned w a b) = Outcome.panic ↔ ¬ repS (M w n) (S w a + (U w b : Int))) ∧
-    (∀ r, Outcome.expect (II.checkedAddUnsigned w a b) = Outcome.ok r → WF w n r ∧ S w r = S w a + (U w b : Int)) :=
+    (II.strictAddUnsigned w a b = Outcome.panic ↔ ¬ repS (M w n) (S w a + (U w b : Int))) ∧
+    (∀ r, II.strictAddUnsigned w a b = Outcome.ok r → WF w n r ∧ S w r = S w a + (U w b : Int)) :=
   (II.overflowingAddUnsigned_spec hw hn ha hb).strict
 example : 2 ≤ 8 ∧ 1 ≤ 3 ∧ WF 8 3 [5, 0, 0] ∧ WF 8 3 [200, 7, 255] ∧
-    Outcome.expect (II.checkedAddUnsigned 8 [5, 0, 0] [200, 7, 255]) = Outcome.panic := by decide
+    II.strictAddUnsigned 8 [5, 0, 0] [200, 7, 255] = Outcome.panic := by decide
 
 /-- `BInt::strict_sub_unsigned` -/
 theorem i_strict_sub_unsigned {w n : Nat} {a b : List Nat} (hw : 2 ≤ w) (hn : 1 ≤ n)
     (ha : WF w n a) (hb : WF w n b) :
-    (Outcome.expect (II.checkedSubUnsigned w a b) = Outcome.panic ↔ ¬ repS (M w n) (S w a - (U w b : Int))) ∧
-    (∀ r, Outcome.expect (II.checkedSubUnsigned w a b) = Outcome.ok r → WF w n r ∧ S w r = S w a - (U w b : Int)) :=
+    (II.strictSubUnsigned w a b = Outcome.panic ↔ ¬ repS (M w n) (S w a - (U w b : Int))) ∧
+    (∀ r, II.strictSubUnsigned w a b = Outcome.ok r → WF w n r ∧ S w r = S w a - (U w b : Int)) :=
   (II.overflowingSubUnsigned_spec hw hn ha hb).strict
 example : 2 ≤ 8 ∧ 1 ≤ 3 ∧ WF 8 3 [255, 255, 127] ∧ WF 8 3 [200, 7, 255] ∧
-    Outcome.expect (II.checkedSubUnsigned 8 [255, 255, 127] [200, 7, 255]) = Outcome.ok [55, 248, 128] := by decide
+    II.strictSubUnsigned 8 [255, 255, 127] [200, 7, 255] = Outcome.ok [55, 248, 128] := by decide
 
 /-- `BInt::wrapping_add (= from_bits(self.bits.wrapping_add(rhs.bits)))` -/
 theorem i_wrapping_add {w n : Nat} {a b : List Nat} (ha : WF w n a) (hb : WF w n b) :
@@ -540,10 +538,11 @@ theorem i_saturating_sub_side {w n : Nat} {a b : List Nat} (hw : 1 ≤ w) (hn : 
   II.sub_overflow_side hw hn ha hb hov
 example : 1 ≤ 8 ∧ 1 ≤ 3 ∧ WF 8 3 [0, 0, 128] ∧ WF 8 3 [5, 0, 0] ∧
     ¬ repS (M 8 3) (S 8 [0, 0, 128] - S 8 [5, 0, 0]) := by decide
-/-- Rust's `BUint::checked_neg` body (`is_zero` test) coincides with the modelled projection -/
-theorem u_checked_neg_rust {w n : Nat} {a : List Nat} (hw : 1 ≤ w) (hn : 1 ≤ n) (ha : WF w n a) :
-    UI.checkedNeg w a = if isZero a then some a else none :=
-  UI.checkedNeg_eq_isZero hw hn ha
+/-- `BUint::checked_neg` is written (and modelled) with an `is_zero` test; it is nevertheless the
+    projection of `overflowing_neg` like every other checked form -/
+theorem u_checked_neg_proj {w n : Nat} {a : List Nat} (hw : 1 ≤ w) (hn : 1 ≤ n) (ha : WF w n a) :
+    UI.checkedNeg w a = tupleToOption (UI.overflowingNeg w a) :=
+  UI.checkedNeg_eq_proj hw hn ha
 example : 1 ≤ 8 ∧ 1 ≤ 3 ∧ WF 8 3 [0, 0, 0] ∧ UI.checkedNeg 8 [0, 0, 0] = some [0, 0, 0] := by decide
 
 end Bnum.C01
